@@ -1,21 +1,25 @@
 // Proof layer of D-b: the loop invariants of `line_changes` as two opaque predicates and one lemma
 // per kind of step. Nothing here is trusted: every lemma is proved by Verus.
-// k = position in the current hunk h; [gs, fa) = removed lines of the current group of changed
-// lines, [fa, k) = its added lines seen so far.
+// k = position in the current hunk h; [gs, fa - mk(ls, fa)) = removed lines of the current group of
+// changed lines, [fa, k) = its added lines seen so far; mk(ls, fa) == 1 iff a marker line
+// (`\ No newline at end of file`, no line of either file) stands between the two at fa - 1.
 
 /// the group of changed lines that is open at position k, the queue and `prev_line`
 #[verifier::opaque]
 pub open spec fn inv_group(f: PatchedFile, h: int, k: int, gs: int, fa: int, dq: Seq<&Line>, prev: Option<&Line>) -> bool {
     let ls = hunk_lines(f, h);
     let hk = f.spec_hunks()[h];
-    &&& 0 <= gs <= fa <= k <= ls.len()
+    let re = fa - mk(ls, fa);
+    &&& 0 <= gs <= re <= fa <= k <= ls.len()
     &&& gs == gstart(ls, k) && fa == fadd(ls, k) && gs == gstart(ls, fa)
     &&& gs == 0 || kind(ls[gs - 1]) == Kind::Ctx
-    &&& forall|j: int| gs <= j < fa ==> kind(#[trigger] ls[j]) == Kind::Rem
+    &&& forall|j: int| gs <= j < re ==> kind(#[trigger] ls[j]) == Kind::Rem
     &&& forall|j: int| fa <= j < k ==> kind(#[trigger] ls[j]) == Kind::Add
     // the queue holds the removed lines of the group that are not paired yet
-    &&& dq.len() == (if (fa - gs) - (k - fa) > 0 { (fa - gs) - (k - fa) } else { 0 })
+    &&& dq.len() == (if (re - gs) - (k - fa) > 0 { (re - gs) - (k - fa) } else { 0 })
     &&& forall|j: int| 0 <= j < dq.len() ==> *(#[trigger] dq[j]) == ls[gs + (k - fa) + j]
+    // `prev_line` is the line before k, marker lines included: after a marker line it is the marker,
+    // which nobody reads (the next line is an added line and overwrites it)
     &&& k > 0 ==> (prev matches Some(p) && *p == ls[k - 1])
     &&& ct(hk, fa) == ct(hk, gs)
 }
@@ -57,6 +61,7 @@ pub open spec fn inv_outer(f: PatchedFile, h: int, out: Seq<LineChange>, o: Seq<
 pub proof fn lemma_outer_init(f: PatchedFile, carve: bool)
     ensures inv_outer(f, 0, Seq::<LineChange>::empty(), Seq::<Orig>::empty(), carve),
 {
+    reveal(post_origin_increasing);
     reveal(inv_outer);
 }
 
@@ -69,6 +74,8 @@ pub proof fn lemma_outer_to_inner(f: PatchedFile, h: int, dq: Seq<&Line>, prev: 
         inv_group(f, h, 0, 0, 0, dq, prev),
         inv_entries(f, h, 0, 0, 0, false, out, o, carve),
 {
+    reveal(post_origin_increasing);
+    reveal(mk);
     reveal(inv_outer);
     reveal(inv_group);
     reveal(inv_entries);
@@ -94,6 +101,8 @@ pub proof fn lemma_step_add(f: PatchedFile, h: int, k: int, gs: int, fa: int, dq
         inv_group(f, h, k + 1, gs, fa, dq1, Some(p1)),
         inv_entries(f, h, k + 1, gs, fa, false, out.push(e), o.push(Orig { h: h, k: k, e: -1 }), carve),
 {
+    reveal(post_origin_increasing);
+    reveal(mk);
     let ls = hunk_lines(f, h);
     let hk = f.spec_hunks()[h];
     let x = Orig { h: h, k: k, e: -1 };
@@ -161,14 +170,21 @@ pub proof fn lemma_step_rem(f: PatchedFile, h: int, k: int, gs: int, fa: int, dq
         inv_group(f, h, k + 1, gs, k + 1, dq.push(p1), Some(p1)),
         inv_entries(f, h, k + 1, gs, k + 1, false, out, o, carve),
 {
+    reveal(mk);
     let ls = hunk_lines(f, h);
     let hk = f.spec_hunks()[h];
     assert(hunk_wf(hk));
     assert(line_wf(hk, k));
     reveal(inv_group);
     reveal(inv_entries);
-    if k > 0 { assert(kind(ls[k - 1]) != Kind::Add); }
+    if k > 0 {
+        assert(kind(ls[k - 1]) != Kind::Add);
+        // a marker line is followed by an added line, never by a removed one
+        assert(line_wf(hk, k - 1));
+        assert(kind(ls[k - 1]) != Kind::Other);
+    }
     assert(fa == k);
+    assert(mk(ls, k) == 0 && mk(ls, k + 1) == 0);
     assert(ct(hk, k + 1) == ct(hk, k));
     let dq1 = dq.push(p1);
     assert forall|j: int| 0 <= j < dq1.len() implies *(#[trigger] dq1[j]) == ls[gs + j] by {
@@ -176,6 +192,49 @@ pub proof fn lemma_step_rem(f: PatchedFile, h: int, k: int, gs: int, fa: int, dq
     }
     assert forall|ks: int, e2: int| #[trigger] pure_del_run(ls, ks, e2) && e2 < k + 1 implies has_entry(o, h, ks) by {
         if e2 == k { assert(kind(ls[k]) == Kind::Rem); }
+    }
+}
+
+/// the post-state of a marker line (`\ No newline at end of file`): the code takes none of its three
+/// branches, so the queue and the entries are what they were; only `prev_line` becomes the marker.
+/// The marker is no line of either file: the group stays open, its removed lines stay [gs, k), the
+/// added lines will start at k + 1.
+pub proof fn lemma_step_marker(f: PatchedFile, h: int, k: int, gs: int, fa: int, dq: Seq<&Line>, prev: Option<&Line>,
+    out: Seq<LineChange>, o: Seq<Orig>, carve: bool, p1: &Line)
+    requires
+        file_wf(f),
+        0 <= h < f.spec_hunks().len(),
+        0 <= k < hunk_lines(f, h).len(),
+        kind(hunk_lines(f, h)[k]) == Kind::Other,
+        inv_group(f, h, k, gs, fa, dq, prev),
+        inv_entries(f, h, k, gs, fa, false, out, o, carve),
+        *p1 == hunk_lines(f, h)[k],
+    ensures
+        fa == k,
+        inv_group(f, h, k + 1, gs, k + 1, dq, Some(p1)),
+        inv_entries(f, h, k + 1, gs, k + 1, false, out, o, carve),
+{
+    reveal(mk);
+    let ls = hunk_lines(f, h);
+    let hk = f.spec_hunks()[h];
+    assert(hunk_wf(hk));
+    assert(line_wf(hk, k));
+    assert(marker_wf(ls, k));
+    reveal(inv_group);
+    reveal(inv_entries);
+    // the line before the marker is a removed line: no added line of the group has been seen
+    assert(kind(ls[k - 1]) == Kind::Rem);
+    assert(fa == k);
+    assert(mk(ls, k) == 0 && mk(ls, k + 1) == 1);
+    assert(ct(hk, k + 1) == ct(hk, k));
+    assert(fadd(ls, k + 1) == k + 1);
+    assert(gstart(ls, k + 1) == gs);
+    // no run of removed lines ends at the marker as a PURE deletion: an added line follows it
+    assert forall|ks: int, e2: int| #[trigger] pure_del_run(ls, ks, e2) && e2 < k + 1 implies has_entry(o, h, ks) by {
+        if e2 == k {
+            assert(kind(ls[k + 1]) == Kind::Add);
+            assert(next_is(ls, k, Kind::Add));
+        }
     }
 }
 
@@ -203,12 +262,22 @@ pub proof fn lemma_step_fold(f: PatchedFile, h: int, k: int, gs: int, fa: int, d
     ensures
         inv_entries(f, h, k, k, k, true, out1, fold_origin(o, h, k, gs, dq, prev), carve),
 {
+    reveal(post_origin_increasing);
+    reveal(mk);
     let ls = hunk_lines(f, h);
     let hk = f.spec_hunks()[h];
     assert(hunk_wf(hk));
     reveal(inv_group);
     reveal(inv_entries);
     let o1 = fold_origin(o, h, k, gs, dq, prev);
+    if k > 0 {
+        // `prev_line` is read here: it is not a marker line, because a marker line is followed by an
+        // added line (and is not the last line of the hunk), while k is a context line or the end
+        assert(line_wf(hk, k - 1));
+        assert(kind(ls[k - 1]) != Kind::Other);
+    }
+    assert(mk(ls, k) == 0);
+    assert(!next_is(ls, k, Kind::Rem) && !next_is(ls, k, Kind::Add));
     if k > 0 && kind(ls[k - 1]) == Kind::Rem {
         assert(fa == k);
         assert(dq.len() == k - gs);
@@ -287,6 +356,7 @@ pub proof fn lemma_closed_to_inner(f: PatchedFile, h: int, k: int, out: Seq<Line
         inv_group(f, h, k + 1, k + 1, k + 1, dq, Some(p1)),
         inv_entries(f, h, k + 1, k + 1, k + 1, false, out, o, carve),
 {
+    reveal(mk);
     let hk = f.spec_hunks()[h];
     assert(ct(hk, k + 1) == ct(hk, k) + 1);
     reveal(inv_group);
@@ -385,27 +455,49 @@ pub proof fn lemma_add_end(ls: Seq<Line>, k: int)
 /// the former are all paired, the latter have their entry.
 pub proof fn lemma_removed_accounted(f: PatchedFile, out: Seq<LineChange>, o: Seq<Orig>)
     requires
+        file_wf(f),
         kf2_carve_out(f),
         post_every_pure_deletion(f, o),
     ensures
         post_removed_accounted(f, out, o),
 {
+    reveal(mk);
     assert forall|h: int, k: int| 0 <= h < f.spec_hunks().len() && 0 <= k < hunk_lines(f, h).len()
         && kind(#[trigger] hunk_lines(f, h)[k]) == Kind::Rem implies removed_accounted(f, out, o, h, k) by {
         let ls = hunk_lines(f, h);
+        let hk = f.spec_hunks()[h];
+        assert(hunk_wf(hk));
         lemma_rem_start(ls, k);
         lemma_rem_end(ls, k);
         let gs = rem_start(ls, k);
-        let fa = rem_end(ls, k);
-        lemma_add_end(ls, fa);
-        let ge = add_end(ls, fa);
-        assert forall|j: int| gs <= j < fa implies kind(#[trigger] ls[j]) == Kind::Rem by {}
-        if ge == fa {
-            assert(pure_del_run(ls, gs, fa));
-            assert(has_entry(o, h, gs));
-        } else {
+        let re = rem_end(ls, k);
+        assert forall|j: int| gs <= j < re implies kind(#[trigger] ls[j]) == Kind::Rem by {}
+        assert(k < re);
+        if re < ls.len() && kind(ls[re]) == Kind::Other {
+            // a marker line after the run: no line, the added lines behind it belong to the group
+            assert(line_wf(hk, re));
+            let fa = re + 1;
+            lemma_add_end(ls, fa);
+            let ge = add_end(ls, fa);
+            assert(kind(ls[fa]) == Kind::Add);
+            assert(ge > fa);
+            assert(mk(ls, fa) == 1);
             assert(replace_group(ls, gs, fa, ge));
-            assert(fa - gs <= ge - fa);
+            assert((fa - mk(ls, fa)) - gs <= ge - fa);
+        } else {
+            let fa = re;
+            lemma_add_end(ls, fa);
+            let ge = add_end(ls, fa);
+            assert(kind(ls[fa - 1]) == Kind::Rem);
+            assert(mk(ls, fa) == 0);
+            if ge == fa {
+                assert(!next_is(ls, fa, Kind::Rem) && !next_is(ls, fa, Kind::Add));
+                assert(pure_del_run(ls, gs, fa));
+                assert(has_entry(o, h, gs));
+            } else {
+                assert(replace_group(ls, gs, fa, ge));
+                assert((fa - mk(ls, fa)) - gs <= ge - fa);
+            }
         }
     }
 }
